@@ -41,7 +41,130 @@ class StoreFault(RuntimeError):
     pass
 
 
+TRACES = {}          # key (db path or unique id) -> {"idle_timeout_ms", "backoffs_ms", "lines"}: server-layer lines of every
+                     # system run since the last take_traces(); a restart on the same database continues the same record
+_anon = [0]
+
+
+def take_traces():
+    out = list(TRACES.values())
+    TRACES.clear()
+    return out
+
+
+_EXT_UIDS = ("x", "wake")
+_ISENT = set()       # uids of ticks a step sent to its own run (send_int lines seen so far in the trace being projected)
+
+
+def server_lines(trace, restart):
+    """The lines of a recorded server execution that TraceServer.tla consumes."""
+    _ISENT.clear()
+    out = []
+    ends_next = False
+    i = 0
+    n = len(trace)
+    while i < n:
+        r = trace[i]
+        e, t = r["e"], r["t"]
+        if e == "launch_begin":
+            if r["restart"]:
+                # what _on_server_start did, up to the `launched` line: a resumed loop and/or a finalising status write
+                j = i + 1
+                resumed, final = False, ""
+                while j < n and trace[j]["e"] != "launched":
+                    if trace[j]["e"] == "loop_start":
+                        resumed = True
+                    if trace[j]["e"] == "status_write" and trace[j].get("ok") and trace[j]["status"] in ("completed", "failed", "cancelled"):
+                        final = trace[j]["status"]
+                    j += 1
+                out.append({"e": "restart", "t": t, "resumed": resumed, "finalized": final})
+                k = i + 1
+                while k < j:               # keep the loop_start / engine lines of the resumed loop, drop the finalising write
+                    if not (trace[k]["e"] == "status_write" and trace[k]["status"] in ("completed", "failed", "cancelled")):
+                        i_line = _line(trace[k])
+                        if i_line is not None:
+                            out.append(i_line)
+                    k += 1
+                i = j
+                continue
+        ln = _line(r)
+        if ln is not None:
+            out.append(ln)
+        i += 1
+    if len({r.get("rid") for r in trace if r["e"] == "loop_start"}) > 1:
+        return None                # more than one run in this server: ServerStack.tla describes the stack around ONE run
+    # the `ends` flag of a persist line comes from the tick line before it
+    last_ends = False
+    last_timers = False
+    for ln in out:
+        if ln["e"] == "tick":
+            if ln["cause"] == "timer" and ln.pop("retry", False) and not last_timers:
+                ln["cause"] = "work"           # a retry without delay is queued by the failing tick's own command
+            ln.pop("retry", None)
+            last_timers = ln["timers"]
+            last_ends = ln.pop("ends")
+        elif ln["e"] == "persist":
+            ln["ends"] = bool(last_ends)
+            last_ends = False
+    return out
+
+
+def _line(r):
+    e, t = r["e"], r["t"]
+    if e == "row_write":
+        return {"e": "row_write", "t": t, "ok": True}
+    if e == "status_write":
+        if r.get("initial"):
+            return {"e": "row_write", "t": t, "ok": False}
+        return {"e": "status_write", "t": t, "status": r["status"], "ok": bool(r["ok"]), "idle": bool(r.get("idle")),
+                "clears_idle": bool(r.get("clears_idle"))}
+    if e == "loop_start":
+        return {"e": "loop_start", "t": t, "gen": r["gen"]}
+    if e == "loop_exit":
+        return {"e": "loop_exit", "t": t, "gen": r["gen"]}
+    if e == "send_int":
+        _ISENT.add(str(r["tick"].get("uid", "")))
+        return {"e": "isend", "t": t}
+    if e == "tick":
+        tk = r["tick"]
+        ext = tk["k"] == "cancel" or (tk["k"] == "add" and tk.get("att", -1) == -1 and str(tk.get("uid", "")).startswith(_EXT_UIDS)
+                                      and "." not in str(tk.get("uid", "")))
+        eng = r.get("eng") or {"work": True, "timers": False, "running": True}
+        imail = tk["k"] == "add" and tk.get("att", -1) == -1 and str(tk.get("uid", "")) in _ISENT
+        if imail:
+            _ISENT.discard(str(tk.get("uid", "")))
+        cause = "mail" if ext else "imail" if imail else ("idlecheck" if tk["k"] == "idlecheck" else (
+            "timer" if tk["k"] in ("wtimeout", "timeout") or (tk["k"] == "add" and tk.get("att", -1) > 0) else "work"))
+        return {"e": "tick", "t": t, "work": bool(eng["work"]), "timers": bool(eng["timers"]), "cause": cause,
+                # the reducer ends the run on this tick (is_running cleared, or a halt command: cancel / workflow timeout)
+                "ends": (not eng["running"]) or tk["k"] in ("cancel", "timeout"),
+                "retry": tk["k"] == "add" and tk.get("att", -1) > 0}
+    if e == "persist_tick":
+        return {"e": "persist", "t": t, "n": r["n"]}
+    if e == "release_fire":
+        return {"e": "release_fire", "t": t}
+    if e == "release_done":
+        return {"e": "release_done", "t": t, "released": bool(r["released"])}
+    if e == "ext_send_begin":
+        return {"e": "send_begin", "t": t}
+    if e == "ext_send_end":
+        return {"e": "send_end", "t": t}
+    if e == "ensure_begin":
+        return {"e": "ensure", "t": t, "active": bool(r["active"])}
+    if e == "crash":
+        return {"e": "crash", "t": t}
+    if e == "launched":
+        return {"e": "launched", "t": t}
+    if e == "cmd" and r["cmd"][0] == "cancel":
+        return {"e": "cancel", "t": t}
+    if e == "cmd" and r["cmd"][0] == "advance":
+        return {"e": "advance", "t": t, "to": int(r["cmd"][1])}
+    return None
+
+
 class ServerSystem:
+    _current = None
+
     def __init__(self, prog, db_path=None, idle_timeout=10.0, backoff=(0.5, 3.0), crash_after_tick=None,
                  status_faults=0, start_time=1000.0, run_no_base=0, single_connection=False, initial_faults=0):
         self.prog = prog
@@ -64,6 +187,8 @@ class ServerSystem:
         self.nticks = 0
         self.status_faults = status_faults
         self.initial_faults = initial_faults      # transient failures of the FIRST write of a handler row (store.update)
+        self._in_status = 0
+        self.ngen = 0
         self._start_tasks = {}
         self.handlers = {}          # handler_id -> run_id
         self.ext_sent = 0
@@ -83,6 +208,103 @@ class ServerSystem:
         self.idle = self.server._runtime._decorated                  # IdleReleaseDecorator
         self.persist = self.idle._decorated                          # PersistenceDecorator
         self.basic = S.basic_runtime
+        self._hook_stack()
+
+    # ------------------------------------------------------------------ hooks on the real stack objects (harness-side
+    # wrappers, nothing in /repo changes): one line per decision point of ServerStack.tla
+    def _hook_stack(self):
+        idle, basic, sysm = self.idle, self.basic, self
+        o_release, o_abort, o_ensure = idle._release_idle_handler, idle._abort_inner_run, idle._ensure_active_run_locked
+        o_runwf = basic.run_workflow
+
+        async def release(run_id):
+            sysm.log({"e": "release_fire", "rid": run_id})
+            sysm._aborted = False
+            try:
+                await o_release(run_id)
+            finally:
+                sysm.log({"e": "release_done", "rid": run_id, "released": bool(sysm._aborted)})
+
+        def abort(run_id):
+            sysm._aborted = True
+            sysm.log({"e": "abort", "rid": run_id})
+            return o_abort(run_id)
+
+        async def ensure(run_id):
+            was_active = run_id in idle._active_run_ids
+            sysm.log({"e": "ensure_begin", "rid": run_id, "active": bool(was_active)})
+            try:
+                await o_ensure(run_id)
+            finally:
+                sysm.log({"e": "ensure_done", "rid": run_id})
+
+        def run_workflow(run_id, *a, **k):
+            ext = o_runwf(run_id, *a, **k)
+            sysm.ngen += 1
+            g = sysm.ngen
+            sysm.log({"e": "loop_start", "gen": g, "rid": run_id})
+            q = basic._queues.get(run_id)
+
+            def done(t, g=g):
+                how = "cancelled" if t.cancelled() else (type(t.exception()).__name__ if t.exception() else type(t.result()).__name__)
+                if not sysm.crashed:
+                    sysm.log({"e": "loop_exit", "gen": g, "how": how})
+            if q is not None and hasattr(q, "complete"):
+                q.complete.add_done_callback(done)
+            return ext
+
+        idle._release_idle_handler, idle._abort_inner_run, idle._ensure_active_run_locked = release, abort, ensure
+        basic.run_workflow = run_workflow
+        self._aborted = False
+        # the external adapter's send_event (sends and cancels both go through it)
+        from llama_agents.server._runtime import idle_release_runtime as IRM
+        if not getattr(IRM.IdleReleaseExternalRunAdapter, "_verif_wrapped", False):
+            o_send = IRM.IdleReleaseExternalRunAdapter.send_event
+
+            async def send_event(adapter, tick):
+                cur = ServerSystem._current
+                if cur is not None:
+                    cur.log({"e": "ext_send_begin", "tick": en.p_tick(tick)["k"]})
+                try:
+                    await o_send(adapter, tick)
+                finally:
+                    if cur is not None and not cur.crashed:
+                        cur.log({"e": "ext_send_end"})
+            IRM.IdleReleaseExternalRunAdapter.send_event = send_event
+            IRM.IdleReleaseExternalRunAdapter._verif_wrapped = True
+        ServerSystem._current = self
+
+    def _register_trace(self):
+        restart = self.run_no > 1
+        key = self.db_path
+        if key is None:
+            _anon[0] += 1
+            key = "mem%d" % _anon[0]
+        lines = server_lines(self.trace, restart)
+        if lines is None:
+            return
+        rec = TRACES.get(key)
+        if rec is None or not restart:
+            if rec is not None:              # the same path reused for a new history
+                _anon[0] += 1
+                TRACES["%s#%d" % (key, _anon[0])] = TRACES.pop(key)
+            TRACES[key] = {"idle_timeout_ms": int(round(self.idle._idle_timeout * 1000)),
+                           "backoffs_ms": [int(round(b * 1000)) for b in self.server._runtime._persistence_backoff],
+                           "lines": lines, "nticks_base": 0}
+        else:
+            # a restarted process on the same database: its persisted-tick counter starts again, the log does not
+            base = max([ln["n"] for ln in rec["lines"] if ln["e"] == "persist"] or [0])
+            t_base = max([ln["t"] for ln in rec["lines"]] or [0])
+            for ln in lines:
+                ln["t"] += t_base              # the restarted process's clock continues where the stopped one ended
+                if ln["e"] == "advance":
+                    ln["to"] += t_base
+                if ln["e"] == "persist":
+                    ln["n"] += base
+                if ln["e"] == "loop_start" or ln["e"] == "loop_exit":
+                    ln["gen"] += rec.get("gens", 0)
+            rec["lines"] += lines
+        TRACES[key]["gens"] = TRACES[key].get("gens", 0) + self.ngen
 
     # ------------------------------------------------------------------ recording
     def now_ms(self):
@@ -106,7 +328,14 @@ class ServerSystem:
         return out
 
     def on_tick(self, adapter, tick):
-        self.log({"e": "tick", "tick": en.p_tick(tick), "rid": adapter.run_id})
+        rec = {"e": "tick", "tick": en.p_tick(tick), "rid": adapter.run_id}
+        runner = en._RUNNERS.get(adapter.run_id)
+        if runner is not None:
+            # summary of the control loop after the reducer ran on this tick (ServerStack.tla: eng)
+            st = runner.state
+            rec["eng"] = {"work": bool(any(w.queue or w.in_progress for w in st.workers.values()) or len(runner.tick_buffer) > 0),
+                          "timers": len(runner.scheduled_wakeups) > 0, "running": bool(st.is_running)}
+        self.log(rec)
 
     def _wrap_store(self):
         st = self.store
@@ -118,6 +347,7 @@ class ServerSystem:
             self.log({"e": "persist_tick", "n": self.nticks, "rid": run_id})
             if self.crash_after_tick is not None and self.nticks >= self.crash_after_tick:
                 self.crashed = True
+                self.log({"e": "crash"})
                 await self.loop.create_future()          # the process stops here: nothing after this ever runs
 
         async def update_handler_status(run_id, **kw):
@@ -126,7 +356,11 @@ class ServerSystem:
                 self.status_faults -= 1
                 self.log({"e": "status_write", "status": kw.get("status") or "", "ok": False})
                 raise StoreFault("injected store write failure")
-            await o_status(run_id, **kw)
+            self._in_status += 1
+            try:
+                await o_status(run_id, **kw)
+            finally:
+                self._in_status -= 1
             self.log({"e": "status_write", "status": kw.get("status") or "", "ok": True,
                       "idle": ("idle_since" in kw and kw["idle_since"] is not None),
                       "clears_idle": ("idle_since" in kw and kw["idle_since"] is None)})
@@ -144,6 +378,8 @@ class ServerSystem:
                 self.log({"e": "status_write", "status": "running", "ok": False, "initial": True})
                 raise StoreFault("injected store write failure (initial handler row)")
             await o_update(handler)
+            if not self._in_status:
+                self.log({"e": "row_write", "status": handler.status, "ok": True})
         st.update = update
 
     # ------------------------------------------------------------------ driving
@@ -158,6 +394,7 @@ class ServerSystem:
         return box["t"]
 
     def launch(self):
+        self.log({"e": "launch_begin", "restart": self.run_no > 1})
         t = self._run(self.server.start())
         self.log({"e": "launched", "ok": t.done() and t.exception() is None if t.done() else False})
 
@@ -280,6 +517,10 @@ class ServerSystem:
         return row
 
     def close(self):
+        try:
+            self._register_trace()
+        except Exception:  # noqa: BLE001  (evidence only)
+            pass
         try:
             for k in self.rig.open_gates():
                 self.rig.gates[k].cancel()
